@@ -1,5 +1,33 @@
 package main
 
+// harnessapi2.go - harness API: loggers, contexts, log inspection, cancellation.
+
 func (in *Interp) harnessIntrinsic2(g *Goroutine, name string, c *callCtx) (Value, int, bool) {
+	a := c.args
+	switch name {
+	case "verifNewLogger":
+		return in.newLogger(nil), irDone, true
+	case "verifLogCount":
+		return i64(len(in.logs)), irDone, true
+	case "verifLogMsg":
+		i := in.concreteInt(a[0].(*Term), name)
+		return in.logs[i].msg, irDone, true
+	case "verifLogLevel":
+		i := in.concreteInt(a[0].(*Term), name)
+		return i64(in.logs[i].level), irDone, true
+	case "verifLogHasAttr":
+		i := in.concreteInt(a[0].(*Term), name)
+		k, _ := a[1].(*StrV).Concrete()
+		_, ok := in.findAttr(g, in.logs[i].attrs, k)
+		return BoolC(ok), irDone, true
+	case "verifLogAttr":
+		i := in.concreteInt(a[0].(*Term), name)
+		k, _ := a[1].(*StrV).Concrete()
+		v, ok := in.findAttr(g, in.logs[i].attrs, k)
+		if !ok {
+			return strConst(""), irDone, true
+		}
+		return in.attrString(g, v), irDone, true
+	}
 	return nil, 0, false
 }
